@@ -496,8 +496,21 @@ impl<'ast> syn::visit::Visit<'ast> for Shape {
             }
             Expr::Macro(m) => {
                 let name = m.mac.path.segments.last().map(|s| s.ident.to_string()).unwrap_or_default();
-                // logging macros carry no behaviour
-                if !(name.starts_with("info") || name.starts_with("debug_now") || name.starts_with("warn") || name.starts_with("error_now") || name.starts_with("trace")) {
+                // logging macros: the message text carries no behaviour, but the ARGUMENTS are evaluated when the crate is built with
+                // one of its log features (a slice or an unwrap inside a log statement can panic): they belong to the shape
+                if name.starts_with("info") || name.starts_with("debug_now") || name.starts_with("warn") || name.starts_with("error_now") || name.starts_with("trace") {
+                    if let Ok(args) = m.mac.parse_body_with(syn::punctuated::Punctuated::<Expr, syn::Token![,]>::parse_terminated) {
+                        let mut first = true;
+                        for a in &args {
+                            let is_fmt = first && matches!(a, Expr::Lit(l) if matches!(l.lit, Lit::Str(_)));
+                            first = false;
+                            if !is_fmt {
+                                self.toks.push("logarg".into());
+                                self.visit_expr(a);
+                            }
+                        }
+                    }
+                } else {
                     self.toks.push(format!("macro {name}"));
                     if let Ok(args) = m.mac.parse_body_with(syn::punctuated::Punctuated::<Expr, syn::Token![,]>::parse_terminated) {
                         for a in &args {
